@@ -17,7 +17,7 @@ EXTENDS ArtNode
 VARIABLE g
 
 L1 == INSTANCE ArtTree WITH
-        Keys <- <<>>, Family <- "alpha", RangeBad <- {}, EmitEdges <- FALSE, MaxDepth <- 0, Ramp <- FALSE, StartFull <- FALSE,
+        Keys <- <<>>, Family <- "alpha", RangeBad <- {}, EmitEdges <- FALSE, MaxDepth <- 0, Ramp <- FALSE, StartFull <- FALSE, ProtectEnds <- TRUE, FillCap <- 0, DrainFloor <- 0,
         CovOn <- FALSE, SizeOnSplit <- TRUE, RangeDepth <- "perPath", SearchGuard <- TRUE, LcpBranch <- TRUE,
         KCounter <- "perIteration", tree <- g, size <- n, m <- table, h <- h, lastOK <- TRUE, phase <- "fill"
 
